@@ -93,8 +93,10 @@ func cmdCheck(args []string) int {
 		os.WriteFile(p, data, 0o644)
 		return p
 	}
+	nEngineErr := 0
 	engineFail := func(what, detail string) {
-		p := writeReplay("engine-error_"+what, map[string]interface{}{"status": "engine-error", "obligation": what, "detail": detail})
+		nEngineErr++
+		p := writeReplay(fmt.Sprintf("engine-error-%d_%s", nEngineErr, what), map[string]interface{}{"status": "engine-error", "obligation": what, "detail": detail})
 		violate(p, true)
 	}
 
@@ -306,6 +308,31 @@ func cmdCheck(args []string) int {
 		}
 	}
 	trusted = append(trusted, baseAssumptions...)
+	{
+		var keep []string
+		for _, f := range functions {
+			if strings.HasPrefix(f, "ASSUMED ") {
+				trusted = append(trusted, f)
+			} else {
+				keep = append(keep, f)
+			}
+		}
+		functions = keep
+		inl := map[string]bool{}
+		for _, c := range ctxs {
+			for k := range c.inlined {
+				inl[k] = true
+			}
+		}
+		var il []string
+		for k := range inl {
+			il = append(il, k)
+		}
+		sort.Strings(il)
+		if len(il) > 0 {
+			trusted = append(trusted, "inlined (body executed at the call site instead of a contract): "+strings.Join(il, ", "))
+		}
+	}
 	sort.Strings(functions)
 	extra := map[string]interface{}{
 		"functions_under_contract": functions, "obligations_by_backend": bySolver, "solver_seconds": solverSecs,
@@ -432,9 +459,26 @@ func (e *Engine) implObligations(prop string) ([]*Obligation, []string, []string
 			ct.Loops = map[int]*LoopSpec{}
 			ct.Asserts = map[string][]*Clause{}
 			if own := e.contracts[fn.RelString(nil)]; own != nil {
+				ct.Aliases = map[string]string{}
+				if own.Recv != nil && ict.Recv != nil {
+					ct.Aliases[own.Recv.Name] = ict.Recv.Name
+				}
+				for i, p := range own.Params {
+					if i < len(ict.Params) {
+						ct.Aliases[p.Name] = ict.Params[i].Name
+					}
+				}
+				for i, p := range own.Results {
+					if i < len(ict.Results) {
+						ct.Aliases[p.Name] = ict.Results[i].Name
+					}
+				}
 				ct.Loops = own.Loops
 				ct.Asserts = own.Asserts
 				ct.Requires = append(append([]*Clause(nil), ict.Requires...), own.Requires...)
+				for _, r := range own.Requires {
+					fns = append(fns, "ASSUMED implementer precondition (not checked at interface call sites): "+shortFn(fn.RelString(nil))+": "+r.Text)
+				}
 				ct.Ensures = append(append([]*Clause(nil), ict.Ensures...), own.Ensures...)
 				ct.Modifies = append(append([]*Expr(nil), ict.Modifies...), own.Modifies...)
 				for k, v := range own.Opts {
